@@ -419,6 +419,27 @@ var c20SelfPriv, _ = btcec.PrivKeyFromBytes([]byte(
 func c20NewCtx(t *testing.T, wps *channeldb.WaitingProofStore,
 	chain *c20Chain, height uint32, gv c20GraphView) (*c20Ctx, error) {
 
+	return c20NewCtxOpts(t, wps, chain, height, gv, c20CtxOpts{})
+}
+
+// c20CtxOpts: what the local-announcement tests need to vary.
+type c20CtxOpts struct {
+	self       *btcec.PrivateKey // this node's identity (c20SelfPriv)
+	proofDelta uint32            // ProofMatureDelta (fixture: 0)
+
+	// onlinePeer, if set, supplies the peer object the reliable sender
+	// gets for a node that "comes online".
+	onlinePeer func(pk *btcec.PublicKey) lnpeer.Peer
+}
+
+func c20NewCtxOpts(t *testing.T, wps *channeldb.WaitingProofStore,
+	chain *c20Chain, height uint32, gv c20GraphView,
+	opts c20CtxOpts) (*c20Ctx, error) {
+
+	selfPriv := opts.self
+	if selfPriv == nil {
+		selfPriv = c20SelfPriv
+	}
 	if gv == nil {
 		gv = &c20Graph{newMockRouter(t, height)}
 	}
@@ -428,7 +449,7 @@ func c20NewCtx(t *testing.T, wps *channeldb.WaitingProofStore,
 		notifier: newMockNotifier(),
 	}
 	selfDesc := &keychain.KeyDescriptor{
-		PubKey:     c20SelfPriv.PubKey(),
+		PubKey:     selfPriv.PubKey(),
 		KeyLocator: testKeyLoc,
 	}
 	hID := lnwire.ShortChannelID{BlockHeight: height}
@@ -451,6 +472,10 @@ func c20NewCtx(t *testing.T, wps *channeldb.WaitingProofStore,
 			peerChan chan<- lnpeer.Peer) {
 
 			pk, _ := btcec.ParsePubKey(target[:])
+			if opts.onlinePeer != nil {
+				peerChan <- opts.onlinePeer(pk)
+				return
+			}
 			peerChan <- &mockPeer{pk: pk}
 		},
 		NotifyWhenOffline: func(_ [33]byte) <-chan struct{} {
@@ -470,13 +495,13 @@ func c20NewCtx(t *testing.T, wps *channeldb.WaitingProofStore,
 		TrickleDelay:          c20Trickle,
 		RetransmitTicker:      ticker.NewForce(retransmitDelay),
 		RebroadcastInterval:   rebroadcastInterval,
-		ProofMatureDelta:      proofMatureDelta,
+		ProofMatureDelta:      proofMatureDelta + opts.proofDelta,
 		WaitingProofStore:     wps,
 		MessageStore:          newMockMessageStore(),
 		RotateTicker:          ticker.NewForce(DefaultSyncerRotationInterval),
 		HistoricalSyncTicker:  ticker.NewForce(DefaultHistoricalSyncInterval),
 		NumActiveSyncers:      3,
-		AnnSigner:             &mock.SingleSigner{Privkey: c20SelfPriv},
+		AnnSigner:             &mock.SingleSigner{Privkey: selfPriv},
 		SubBatchDelay:         time.Millisecond,
 		MinimumBatchSize:      10,
 		MaxChannelUpdateBurst: DefaultMaxChannelUpdateBurst,
